@@ -60,6 +60,8 @@ impl<'a> AnalyzeContext<'a, '_> {
         };
 
         scope.add(subpgm_ent, diagnostics);
+        // The region of the subprogram was created before the subprogram itself was declared
+        subpgm_region.invalidate_cached(subpgm_ent.designator());
 
         self.define_labels_for_sequential_part(
             &subpgm_region,
